@@ -1,16 +1,19 @@
 #!/bin/bash
-# usage: confirm_seed.sh <ID> [<name>] — confirm an agent-delivered seeded change in its scratch worktree /tmp/wt-<ID>:
-# patch applies to a clean checkout, suite passes with it, demo fails with it and passes without. Then file it under /verif/seeded/<name>.
-id=$1; name=${2:-$1}; wt=/tmp/wt-$id; out=/tmp/out-$id
+# usage: confirm_seed.sh <ID> [<name>] — confirm an agent-delivered seeded change in its scratch worktree ($WT, default /tmp/wt-<ID>;
+# deliverables in $OUT, default /tmp/out-<ID>): patch applies to a clean checkout, suite passes with it, demo fails with it and passes
+# without. Then file it under /verif/seeded/<name>.
+id=$1; name=${2:-$1}; wt=${WT:-/tmp/wt-$id}; out=${OUT:-/tmp/out-$id}
 set -u
 cd $wt || exit 2
 git checkout -q -- . ; git clean -fdq
 git apply --check $out/patch.diff || { echo "PATCH DOES NOT APPLY"; exit 1; }
-echo "--- demo WITHOUT change"; (bash $out/demo/run.sh $wt > /tmp/demo-$id-clean.log 2>&1); rc0=$?; echo "exit=$rc0"
+if git apply --numstat $out/patch.diff | awk '{print $3}' | grep -E '(_test\.go$|testdata/)' ; then echo "PATCH TOUCHES TESTS"; exit 1; fi
+echo "--- demo WITHOUT change"; (bash $out/demo/run.sh $wt > /tmp/demo-$name-clean.log 2>&1); rc0=$?; echo "exit=$rc0"
+git checkout -q -- . ; git clean -fdq
 git apply $out/patch.diff
-echo "--- suite WITH change"; go test -vet=off -count=1 ./... > /tmp/suite-$id.log 2>&1; rcs=$?; tail -8 /tmp/suite-$id.log; echo "suite exit=$rcs"
+echo "--- suite WITH change"; (go build ./... && go test -vet=off -count=1 ./...) > /tmp/suite-$name.log 2>&1; rcs=$?; tail -8 /tmp/suite-$name.log; echo "suite exit=$rcs"
 git checkout -q go.work.sum 2>/dev/null
-echo "--- demo WITH change"; (bash $out/demo/run.sh $wt > /tmp/demo-$id-mut.log 2>&1); rc1=$?; echo "exit=$rc1"; tail -5 /tmp/demo-$id-mut.log
+echo "--- demo WITH change"; (bash $out/demo/run.sh $wt > /tmp/demo-$name-mut.log 2>&1); rc1=$?; echo "exit=$rc1"; tail -5 /tmp/demo-$name-mut.log
 git checkout -q go.work.sum 2>/dev/null
 if [ $rc0 -eq 0 ] && [ $rcs -eq 0 ] && [ $rc1 -ne 0 ]; then
   mkdir -p /verif/seeded/$name; cp $out/patch.diff /verif/seeded/$name/; rm -rf /verif/seeded/$name/demo; cp -r $out/demo /verif/seeded/$name/demo; cp $out/README.md /verif/seeded/$name/AGENT_README.md 2>/dev/null
